@@ -32,3 +32,25 @@ def pairs : List α → List (α × α)
   | _ => []
 
 end CopVerif.IO
+
+namespace CopVerif.IO
+
+/-- serve the line protocol: one request per line on stdin, one reply line on stdout. -/
+partial def serve (dispatch : List String → String) : IO Unit := do
+  let inp ← IO.getStdin
+  let out ← IO.getStdout
+  let rec loop : IO Unit := do
+    let line ← inp.getLine
+    if line.isEmpty then return ()
+    let ws := (line.trimAscii.toString.splitOn " ").filter (· ≠ "")
+    let reply := match ws with
+      | ["ping"] => "pong"
+      | _ => dispatch ws
+    out.putStrLn reply
+    out.flush
+    loop
+  loop
+
+def parseNat (s : String) : Option Nat := s.toNat?
+
+end CopVerif.IO
